@@ -25,10 +25,10 @@ Definition key_scalar (t: sty) : bool :=
 Fixpoint jsonable (t: sty) : bool :=
   match t with
   | SAny => false
-  | SList t' | SSet _ t' | STupleVar t' | SOpt t' => jsonable t'
+  | SList t' | SSet _ t' | STupleVar t' | SOpt t' | SSeq t' | SBox _ t' => jsonable t'
   | STupleFix ts => forallb jsonable ts
   | STupleU pre mid post => forallb jsonable pre && jsonable mid && forallb jsonable post
-  | SDict kt vt => key_scalar kt && jsonable vt
+  | SDict kt vt | SMap kt vt => key_scalar kt && jsonable vt
   | _ => true end.
 
 Lemma nt_items_forallb {X} (q: pv -> bool) (qc: sfield -> X -> bool) (run: sfield -> X -> res pv) kn ms fds (l: list X) r :
@@ -117,7 +117,7 @@ Section Basic.
   Proof.
     induction v as [ | b | z | f | s | m b | l IHl | l IHl | fr l IHl | kvs IHk | c fs IHf | e m | k w | c l IHl | tg ]
       using pv_rect'; unfold basic_ok.
-    all: intros t; induction t as [ | | | | | | m' | k' | e' | t' IHt | fr' t' IHt | t' IHt | ts | pre mid IHmid post | kt IHkt vt IHvt | t' IHt | c' | c' | c' ];
+    all: intros t; induction t as [ | | | | | | m' | k' | e' | t' IHt | fr' t' IHt | t' IHt | ts | pre mid IHmid post | kt IHkt vt IHvt | t' IHt | c' | c' | c' | t' IHt | kt IHkt vt IHvt | bx t' IHt ];
       intros w0 HC HJ HE; try (solve [apply (basic_tupleu _ _ _ _ _ IHl HC HJ HE)]);
       rewrite conf_unfold in HC; try discriminate HC; try discriminate HJ;
       rewrite ref_enc_unfold in HE; try (inversion HE; reflexivity).
@@ -128,6 +128,23 @@ Section Basic.
                      destruct (mapM _ _) as [r|] eqn:Em; [|discriminate HE]; inversion HE; cbn [basic];
                      refine (forallb_mapM_res _ _ _ _ _ Em); intros x y Hx Hy;
                      rewrite forallb_forall in HC; apply (Forall_In _ _ IHl x Hx t' y (HC x Hx) HJ Hy) ].
+    (* dict / Mapping *)
+    all: try solve [
+      apply andb_prop in HC; destruct HC as [_ HC]; cbn [jsonable] in HJ; apply andb_prop in HJ; destruct HJ as [Jk Jv];
+      match type of HE with (bind ?X _ = _) => destruct X as [r|] eqn:Em end; [|discriminate HE]; inversion HE; cbn [basic];
+      apply (forallb_dict_of_pairs _ r (fun _ _ _ _ => or_intror I) scalar_basic basic (fun k v => eq_refl));
+      refine (forallb_mapM_res _ _ _ _ _ Em); intros [k x] [k' x'] Hp Hy;
+      destruct (Forall_In _ _ IHk (k, x) Hp) as [_ Qx]; cbn [snd] in Qx;
+      rewrite forallb_forall in HC; specialize (HC (k, x) Hp); cbn in HC; apply andb_prop in HC; destruct HC as [Ck Cx];
+      destruct (ref_enc E P k kt) as [k1|] eqn:Ek; [|discriminate Hy]; cbn [bind] in Hy;
+      destruct (ref_enc E P x vt) as [x1|] eqn:Ex; [|discriminate Hy]; inversion Hy; subst;
+      rewrite (enc_key_scalar k kt k' Jk Ck Ek); rewrite (Qx vt x' Cx Jv Ex); reflexivity ].
+    (* boxed collections *)
+    all: try solve [
+      destruct fs as [|[n inner] [|]]; try discriminate HC;
+      apply andb_prop in HC; destruct HC as [_ HC]; cbn [jsonable] in HJ;
+      destruct (chain_empty (is_chain bx) inner); [inversion HE; reflexivity|];
+      inversion IHf as [|? ? Qi _]; subst; cbn [snd] in Qi; apply (Qi t' w0 HC HJ HE) ].
     - (* fixed tuple *)
       cbn [jsonable] in HJ.
       match type of HE with (bind ?X _ = _) => destruct X as [r|] eqn:Em end; [|discriminate HE]. inversion HE. cbn [basic].
@@ -139,16 +156,6 @@ Section Basic.
         destruct (ref_enc E P x t1) as [y|] eqn:Ey; [|discriminate Em]. cbn [bind] in Em.
         match type of Em with (bind ?X _ = _) => destruct X as [ys|] eqn:Eys end; [|discriminate Em].
         inversion Em; subst. cbn [forallb]. rewrite (Qx t1 y Cx Jx Ey). apply (IHl' Ql ts ys Cl Jl Eys).
-    - (* dict *)
-      apply andb_prop in HC. destruct HC as [_ HC]. cbn [jsonable] in HJ. apply andb_prop in HJ. destruct HJ as [Jk Jv].
-      match type of HE with (bind ?X _ = _) => destruct X as [r|] eqn:Em end; [|discriminate HE]. inversion HE. cbn [basic].
-      apply (forallb_dict_of_pairs _ r (fun _ _ _ _ => or_intror I) scalar_basic basic (fun k v => eq_refl)).
-      refine (forallb_mapM_res _ _ _ _ _ Em). intros [k x] [k' x'] Hp Hy.
-      destruct (Forall_In _ _ IHk (k, x) Hp) as [_ Qx]. cbn [snd] in Qx.
-      rewrite forallb_forall in HC. specialize (HC (k, x) Hp). cbn in HC. apply andb_prop in HC. destruct HC as [Ck Cx].
-      destruct (ref_enc E P k kt) as [k1|] eqn:Ek; [|discriminate Hy]. cbn [bind] in Hy.
-      destruct (ref_enc E P x vt) as [x1|] eqn:Ex; [|discriminate Hy]. inversion Hy; subst.
-      rewrite (enc_key_scalar k kt k' Jk Ck Ek). rewrite (Qx vt x' Cx Jv Ex). reflexivity.
     - (* TypedDict *)
       destruct (sfind E _ c') as [k0|] eqn:Ef; [|discriminate HE].
       pose proof (sfind_jsonable _ c' k0 Ef) as HJf.
